@@ -219,7 +219,8 @@ def gen_case(tape, tier):
                                                  "workers": 1 + tape.choose(3, "workers"), "start": tape.pick(["fifo", "any"], "start"),
                                                  "pickle_at": "submit"}}
         case = {"family": "parts", "workload": w, "parts": parts, "complete": len(parts) == _n_parts(per_axis),
-                "config": {"storage": C.gen_storage(tape, w), "executor": executor, "preempt": tape.pick([0.1, 0.5], "preempt")}}
+                "config": {"storage": C.gen_storage(tape, w), "executor": executor, "preempt": tape.pick([0.1, 0.5], "preempt"),
+                           "show_progress": bool(tape.coin(0.15, "show-progress"))}}
         if output_fns:
             case["output_fns"] = output_fns
         return case
@@ -439,7 +440,7 @@ def _run_parts(case, w, ref, folder, process, V, probes, w_full=None):
             executor, parallel = C.make_executor(sim, cfg["executor"])
             res = p.map(build_inputs(w), run_folder=folder, parallel=parallel, executor=executor,
                         storage=storage, fixed_indices=_fx(part), cleanup=False, persist_memory=True,
-                        **map_kwargs(w), **extra)
+                        show_progress=bool(cfg.get("show_progress")), **map_kwargs(w), **extra)
             masks = {}
             for o in all_outputs(w):
                 st = res[o].store
